@@ -33,6 +33,12 @@ def gen(ck, params):
             for r in range(2 if q else 10):
                 words = [rng.randrange(0, 3 * n) if rng.random() < 0.7 else rng.randrange(1 << 64) for _ in range(h * (n + 4))]
                 cases.append(("fixed weight: random tapes", cfg, "hwt %s %d T %s" % (head, h, tape_words(words, 8))))
+        # Gaussian wrapper through the real sampler (small sigma, centres that make negative / positive / large values), amplifiers incl. large ones
+        for (sigma, centre) in ((3.0, 0.0), (2.0, -40.0), (2.0, 1000.25), (1.5, -3000.5)):
+            for A in (1, 2, 3, 5, 7, 257) + (() if q else (65537, 1000003)):
+                if A * (abs(centre) + 14 * sigma) >= min(ps): continue
+                tape = "".join("%02x" % rng.randrange(256) for _ in range(n * 40))
+                cases.append(("gaussian wrapper: amplifier x negative/positive/large samples", cfg, "gauss %s %d %s %s T %s" % (head, A, repr(sigma), repr(centre), tape)))
     return cases
 
 def run(ck):
@@ -44,7 +50,7 @@ def run(ck):
     for b, ch, err in errs: ck.violation("sampler harness does not compile", {"compiler_output": err[-3000:]}, tag="build", no_input=True)
     cases = gen(ck, params)
     res = sc.run(ck, cases, exes, model)
-    fails, corr = [], []
+    fails, corr, gmodel = [], [], []
     for (stream, cfg, line), st, words, tail, mline in res:
         w, n, nm = cfg; ps = [params[w]["rows"][cm][0] for cm in range(nm)]
         dist = line.split()[0]
@@ -53,7 +59,15 @@ def run(ck):
             v = sc.verdict(dist, words, ps, n)
             if v: fails.append((stream, line, v, mline)); continue
         impl = (st + " " + " ".join(map(str, words))).strip()
+        if dist == "gauss":
+            gmodel.append((stream, line, impl, "gauss %s %s" % (" ".join(line.split()[1:5]), tail.split("noise=")[1].rstrip(",").replace(",", " ") if "noise=" in tail else "")))
+            continue
         if impl != mline: corr.append((stream, line, impl, mline))
+    if gmodel:   # second model pass: the Gaussian wrapper on the noise vector the real sampler produced
+        rc, mout, merr = vf.run_io([model, "samp"], "\n".join(g_[3] for g_ in gmodel) + "\n", timeout=600)
+        for (stream, line, impl, ml), mo in zip(gmodel, mout.rstrip("\n").split("\n")):
+            mm = " ".join(mo.split("#")[0].split())
+            if impl != mm: corr.append((stream, line, impl, mm))
     st = {}
     for s, cfg, l in cases: st.setdefault(s, set()).add(l)
     for s, ls in sorted(st.items()): ck.stream(s, len(ls))
